@@ -119,6 +119,14 @@ def _calls():
     add("align/align_origin (reference)", f_align)
 
     def f_assoc(a, b, W):
+        twin = copy.deepcopy(a)
+        W(twin, "trajectory with the same timestamps")
+        same = sync.associate_trajectories(a, twin, 0.25)
+        assert same[0] is not a and same[1] is not twin, \
+            "associate_trajectories returned its input objects"
+        mutate_output(list(same))
+        assert not W.changed(), ("mutating trajectories associated with "
+                                 "equal timestamps changed %s" % W.changed())
         out = sync.associate_trajectories(a, b, 0.25)
         out2 = sync.associate_trajectories(b, a, 0.25, offset_2=0.125)
         mutate_output([out, out2])
@@ -499,7 +507,13 @@ class Heap(object):
                 elif name == "df_roundtrip":
                     new = [pandas_bridge.df_to_trajectory(
                         pandas_bridge.trajectory_to_df(o))]
-                # an object returned as itself is not a derived object
+                # an object returned as itself (a split without gaps
+                # returns [self]) is not a derived object; every other
+                # derivation must hand out a new, independent object
+                if not name.startswith("split") and any(
+                        x is y for x in new for y in st.objs):
+                    msgs.append("%s returned its input object itself instead "
+                                "of an independent one" % name)
                 new = [x for x in new if all(x is not y for y in st.objs)]
                 # keep the first and the last derived part
                 if len(new) > 1:
